@@ -690,6 +690,34 @@ fn battery() -> Vec<Entry> {
         "MapUpdateLike<i32,Value>" => MapUpdateLike<i32, Value>,
         "HeaderEnum" => HeaderEnum,
     ]);
+    // `#[form(tag)]` fields (R5-C16): every shape the derive treats separately, alone and nested.
+    all.extend(entries!["derived-plain":
+        "TagFieldOnly" => TagFieldOnly,
+        "TagFieldLabelled" => TagFieldLabelled,
+        "TagFieldTuple" => TagFieldTuple,
+        "TagFieldTuple1" => TagFieldTuple1,
+        "TagFieldGeneric<i32>" => TagFieldGeneric<i32>,
+        "TagFieldGeneric<TagFieldTuple>" => TagFieldGeneric<TagFieldTuple>,
+        "Vec<TagFieldTuple>" => Vec<TagFieldTuple>,
+        "Option<TagFieldLabelled>" => Option<TagFieldLabelled>,
+        "EnumOfTagFields" => EnumOfTagFields,
+    ]);
+    all.extend(entries!["derived-header":
+        "TagFieldLabelledHeaders" => TagFieldLabelledHeaders,
+        "TagFieldTupleHeaders" => TagFieldTupleHeaders,
+        "TagFieldNoItems" => TagFieldNoItems,
+        "TagFieldNoItemsHeaderBody" => TagFieldNoItemsHeaderBody,
+        "Vec<TagFieldNoItems>" => Vec<TagFieldNoItems>,
+    ]);
+    all.extend(entries!["derived-attr-field":
+        "TagFieldNoItemsAttr" => TagFieldNoItemsAttr,
+    ]);
+    all.extend(entries!["derived-body-replaced":
+        "TagFieldBody" => TagFieldBody,
+        "TagFieldBodyPrim" => TagFieldBodyPrim,
+        "TagFieldBodyHeaders" => TagFieldBodyHeaders,
+        "Vec<TagFieldBody>" => Vec<TagFieldBody>,
+    ]);
     let derived = all.len();
     assert!(derived >= 40);
     all.extend(entries!["builtin":
